@@ -529,3 +529,16 @@ Fixpoint check_trace (fl : flags) (o : obj) (steps : list (op * (option err * os
           && check_trace fl o' r
       end
   end.
+
+(* ------------------------------------------------------------------ Data.copy(parent = any object, mask = m) observed alone
+   [n_new] = number of vertices / cells of the target parent (the source's own parent or another object): what the new
+   data child holds, or the error *)
+Definition data_copy_obs (fl : flags) (n_new : nat) (m : list bool) (k : kid) : res (option vals) :=
+  match data_copy fl n_new (Some m) k with Ok k' => Ok (kvals k') | Err e => Err e end.
+
+Definition dcopy_agrees (fl : flags) (n_new : nat) (m : list bool) (k : kid) (obs : res (option vals)) : bool :=
+  match data_copy_obs fl n_new m k, obs with
+  | Ok x, Ok y => option_eqb vals_eqb x y
+  | Err x, Err y => err_eqb x y
+  | _, _ => false
+  end.
